@@ -611,6 +611,121 @@ func scopePairs() []scopePair {
 	}
 }
 
+// siblingPairs: every sequence (length <= maxLen) of statements around uses
+// statements at one site - a uses of an EMPTY grouping, a uses of a grouping that
+// only uses the empty one, a uses of a one-leaf grouping, a container (list, case)
+// with a uses inside, a plain leaf - at every site kind, with the groupings in the
+// same module, an import or a submodule.  Each statement's expansion must not
+// depend on what its neighbours expand to (in particular: to nothing).
+func siblingPairs(maxLen int) []scopePair {
+	syms := []string{"E", "N", "U", "C", "L", "K", "S"}
+	type piece struct{ uses, inline string }
+	mk := func(sym string, i int, pfx string) piece {
+		switch sym {
+		case "E":
+			return piece{fmt.Sprintf("uses %se;", pfx), ""}
+		case "N":
+			return piece{fmt.Sprintf("uses %sne;", pfx), ""}
+		case "U":
+			return piece{fmt.Sprintf("uses %su%d;", pfx, i), fmt.Sprintf("leaf x%d { type string; }", i)}
+		case "C":
+			return piece{fmt.Sprintf("container c%d { uses %su%d; }", i, pfx, i), fmt.Sprintf("container c%d { leaf x%d { type string; } }", i, i)}
+		case "L":
+			return piece{fmt.Sprintf("leaf l%d { type string; }", i), fmt.Sprintf("leaf l%d { type string; }", i)}
+		case "K":
+			return piece{fmt.Sprintf("list k%d { key kk; leaf kk { type string; } uses %se; uses %su%d; }", i, pfx, pfx, i), fmt.Sprintf("list k%d { key kk; leaf kk { type string; } leaf x%d { type string; } }", i, i)}
+		case "S":
+			return piece{fmt.Sprintf("choice s%d { case sc%d { uses %sne; uses %su%d; } }", i, i, pfx, pfx, i), fmt.Sprintf("choice s%d { case sc%d { leaf x%d { type string; } } }", i, i, i)}
+		}
+		panic(sym)
+	}
+	var seqs [][]string
+	var rec func(cur []string)
+	rec = func(cur []string) {
+		if len(cur) > 0 {
+			hasEmpty := false
+			for _, x := range cur {
+				hasEmpty = hasEmpty || x == "E" || x == "N" || x == "K" || x == "S"
+			}
+			if hasEmpty {
+				seqs = append(seqs, append([]string{}, cur...))
+			}
+		}
+		if len(cur) == maxLen {
+			return
+		}
+		for _, x := range syms {
+			rec(append(cur, x))
+		}
+	}
+	rec(nil)
+	var out []scopePair
+	for _, def := range []string{"same", "import", "submodule"} {
+		pfx := ""
+		if def == "import" {
+			pfx = "b:"
+		}
+		gdefs := "grouping e { } grouping ne { uses e; }"
+		for i := 0; i < maxLen; i++ {
+			gdefs += fmt.Sprintf(" grouping u%d { leaf x%d { type string; } }", i, i)
+		}
+		for _, site := range []string{"top", "container", "list", "case", "grouping", "augment"} {
+			for _, seq := range seqs {
+				var us, is []string
+				for i, x := range seq {
+					pc := mk(x, i, pfx)
+					us = append(us, pc.uses)
+					if pc.inline != "" {
+						is = append(is, pc.inline)
+					}
+				}
+				wrap := func(content string, inline bool) string {
+					switch site {
+					case "container":
+						return "container site { " + content + " }"
+					case "list":
+						return "list site { key sk; leaf sk { type string; } " + content + " }"
+					case "case":
+						return "choice sitech { case siteca { " + content + " } leaf other { type string; } }"
+					case "grouping":
+						if inline {
+							return "container site { " + content + " }"
+						}
+						return "grouping outer { " + content + " } container site { uses outer; }"
+					case "augment":
+						return "container site { leaf base { type string; } } augment /a:site { " + content + " }"
+					}
+					return content
+				}
+				head := "module a { namespace \"urn:a\"; prefix a; "
+				switch def {
+				case "import":
+					head += "import b { prefix b; } "
+				case "submodule":
+					head += "include s; "
+				}
+				sp := scopePair{Name: fmt.Sprintf("siblings:def=%s:site=%s:seq=%s", def, site, strings.Join(seq, "")), Uses: map[string]string{}, Inline: map[string]string{}}
+				ua, ia := head, head
+				if def == "same" {
+					ua += gdefs + " "
+				}
+				sp.Uses["a"] = ua + wrap(strings.Join(us, " "), false) + " }"
+				sp.Inline["a"] = ia + wrap(strings.Join(is, " "), true) + " }"
+				switch def {
+				case "import":
+					sp.Uses["b"] = "module b { namespace \"urn:b\"; prefix b; " + gdefs + " }"
+					sp.Inline["b"] = "module b { namespace \"urn:b\"; prefix b; }"
+				case "submodule":
+					sp.Uses["s"] = "submodule s { belongs-to a { prefix a; } " + gdefs + " }"
+					sp.Inline["s"] = "submodule s { belongs-to a { prefix a; } }"
+				}
+				out = append(out, sp)
+			}
+		}
+	}
+	return out
+}
+
 func checkScope(sp scopePair) (vs []engine.Violation, outcome string) {
 	mk := func(key, detail string) {
 		vs = append(vs, engine.Violation{Key: key, Witness: sp.Name, Detail: detail + "\n--- uses variant: " + fmt.Sprint(sp.Uses) + "\n--- inline variant: " + fmt.Sprint(sp.Inline), Harness: "scope", Replay: engine.JSON(sp)})
@@ -728,7 +843,11 @@ func runPairs(c *engine.Ctx) {
 
 func run(c *engine.Ctx) {
 	runPairs(c)
-	for i, sp := range scopePairs() {
+	sibLen := 3
+	if !c.Quick() {
+		sibLen = 4
+	}
+	for i, sp := range append(scopePairs(), siblingPairs(sibLen)...) {
 		id := fmt.Sprintf("scope:%d:%s", i, sp.Name)
 		if !c.Owns(id) || !c.Case(id) {
 			continue
